@@ -295,7 +295,7 @@ impl<T: Qcow2IoOps> Qcow2Dev<T> {
                             break;
                         }
                     }
-                    Err(_) => break,
+                    Err(e) => return Err(e),
                 };
             }
             s
